@@ -47,7 +47,9 @@ func (verifDriver) Validate(msg, pub, sig []byte) error {
 const verifSigTy = 200
 
 func verifC16Register(enable int64) {
-	crypto.Register("verifsig", verifDriver{}, crypto.WithRegOptionTypeID(verifSigTy))
+	if crypto.GetType("verifsig") != verifSigTy {
+		crypto.Register("verifsig", verifDriver{}, crypto.WithRegOptionTypeID(verifSigTy))
+	}
 	crypto.Init(&crypto.Config{EnableHeight: map[string]int64{"verifsig": enable}}, nil)
 }
 
